@@ -1019,6 +1019,9 @@ def run(ctx, report):
     bittest_address_rule(ctx, R13, L, sem)
     R14 = report.rule('C04.D14', 'call / ret / retf / leave / enter under the 16-bit operand size address the stack through the 32-bit esp, as push and pop do (lifted addresses and the new esp evaluated)', floor=13)
     stack_pointer_rule(ctx, R14, L, sem)
+    R15 = report.rule('C04.D15', 'one iteration of a repeated string instruction takes 1 from the count register the address size selects; F2 and F3 repeat every string instruction and nothing else (shared with C08.D7)', floor=6)
+    from .c08 import rep_count_rule
+    rep_count_rule(ctx, R15)
     R11 = report.rule('C04.D11', 'xchg / xadd on two parts of one register (al, ah) write both parts (lifted assignments evaluated)', floor=4)
     same_register_parts_rule(ctx, R11, L, sem)
     report.analysed['effects_ref_mnemonics'] = len(eff)
@@ -1117,4 +1120,5 @@ MUTANTS = [
     ('retf32-pops-6', 'miasmx/arch/ia32_sem.py', "ExprInt(int_cast(2*(s//8))), a))))", "ExprInt(int_cast(s//8 + 2)), a))))", 'C04.D14'),
     ('leave16-sp', 'miasmx/arch/ia32_sem.py', "    e.append(ExprAff(esp, ExprOp('+', ExprInt32(s/8), ebp)))", "    e.append(ExprAff(esp[:16], ExprOp('+', ExprInt16(s/8), ebp[:16])))", 'C04.D14'),
     ('enter16-whole-ebp', 'miasmx/arch/ia32_sem.py', "        e.append(ExprAff(myebp, esp_tmp[:16]))", "        e.append(ExprAff(ebp, esp_tmp))", 'C04.D14'),
+    ('rep-count-by-opmode', 'miasmx/tools/emul_helper.py', "        if l.admode == x86_afs.u16:\n            count = ExprCompose", "        if l.opmode == x86_afs.u16:\n            count = ExprCompose", 'C04.D15'),
 ]
